@@ -5,4 +5,4 @@ import sys
 sys.path[:0] = ['/repo' + "/pulser-core", '/repo' + "/pulser-simulation", "/verif"]
 from symx.replay import replay
 sys.exit(replay(check='checks.c18', kernel='switch', shape={'program': 'slm', 'sym': [], 'concrete': [['dmm_0', 'bottom_detuning', -5.0]], 'strict': True},
-                assignment={'buf#1.start': 0, 'buf#1.end': 1, 'buf#2.start': 0, 'buf#2.end': 24, 'buf#5.start': 0, 'buf#5.end': 1, 'buf#8.start': 0, 'buf#8.end': 24}, label='strict:identical_timeline'))
+                assignment={'buf#1.start': 0, 'buf#1.end': 1, 'buf#2.start': 0, 'buf#2.end': 24, 'buf#5.start': 0, 'buf#5.end': 0, 'buf#8.start': 0, 'buf#8.end': 10}, label='strict:identical_timeline'))
